@@ -79,9 +79,26 @@ def mentions(node):
             # names of `let` bindings (a mis-named binding silently stops shadowing the value it was meant to replace)
             for st_ in n.get("stmts", []):
                 if st_["k"] == "Let":
-                    for bn in hir.pat_bindings(st_["pat"]):
-                        if bn:
-                            out.append(("binding", bn, st_.get("line")))
+                    for bn in all_bindings(st_["pat"]):
+                        out.append(("binding", bn, st_.get("line")))
+    return out
+
+
+def all_bindings(p):
+    out = []
+    if not isinstance(p, dict):
+        return out
+    if p.get("k") == "Binding":
+        out.append(p["name"])
+        if isinstance(p.get("sub"), dict):
+            out += all_bindings(p["sub"])
+    for key in ("pat",):
+        if isinstance(p.get(key), dict):
+            out += all_bindings(p[key])
+    for q in p.get("pats", []) or []:
+        out += all_bindings(q)
+    for fd in p.get("fields", []) or []:
+        out += all_bindings(fd.get("pat"))
     return out
 
 
@@ -236,7 +253,7 @@ def rule_A_NAMES(ctx, modules=MODULES):
                 return fp[0] if fp and len(fp) == 1 else None
             names = [plain(a) for a in args]
             for i, nm in enumerate(names):
-                if nm and nm != "self" and nm in ps and ps[i] != nm and ps.index(nm) != i and names[ps.index(nm)] != nm:
+                if nm and nm != "self" and nm in ps and ps[i] != nm and ps.index(nm) != i:
                     ctx.ob("A-NAMES", "%s: %s(.. %s ..)" % (it["name"], hir.callee_name(c), nm), False,
                            "local `%s` is passed as parameter `%s` although the callee has a parameter `%s`" % (nm, ps[i], nm),
                            "%s:%s" % (it["span"]["file"], c.get("line")))
